@@ -7,15 +7,17 @@ PROP = {'lean_props': ['Comrak.Props.C10'],
  'lean_audit': ['Comrak.Audit.C10'],
  'required_theorems': ['enter_leaves_opened', 'exit_closes_closing', 'html_balanced', 'html_balanced_of_shape',
                        'lex_spell', 'html_void_discipline', 'balanced_tokens_balanced_bytes', 'html_balanced_bytes_partial',
-                       'balancedBytes_imp_core', 'html_footnote_section_once_bytes'],
+                       'balancedBytes_imp_core', 'html_footnote_section_once_bytes', 'html_table_sections',
+                       'flagged_tokens_balanced_bytes', 'html_balanced_bytes'],
  'strength': 'full at token level for every tree with balShapeT (implied by Shape), all options; at byte level proved in safe mode '
-             '(unsafe_ = false) for the core of the oracle (lexes completely, tag stack balanced, void elements self-closed and only they) '
-             'and for its footnote-section-once clause; the thead/tbody-once-under-table clause of the oracle only by running it on real output',
+             '(unsafe_ = false) for the COMPLETE run-time oracle balancedBytes (html_balanced_bytes: lexes completely, tag stack balanced, '
+             'void elements self-closed and only they, thead/tbody only directly under table and at most once per table, footnote section '
+             'at most once); the thead/tbody clause is now proved (html_table_sections), no clause of the oracle is left to testing in safe mode',
  'trusted_base': ['token spelling: K compares spell(renderToks) with the real bytes; the step from token balance to byte balance is proved '
-                  '(lex_spell: lexHtml (spell ts) = some (toL ts) for allowed tokens; html_balanced_bytes_partial) for safe mode and the core '
-                  'oracle balancedBytesCore plus the footnote-section-once clause (html_footnote_section_once_bytes); with unsafe_ = true '
-                  '(raw HTML passed through) and for the thead/tbody-once-under-table clause of balancedBytes it is checked by running the '
-                  'oracle on the real output, not proved'],
+                  '(lex_spell: lexHtml (spell ts) = some (toL ts) for allowed tokens; html_balanced_bytes: balancedBytes (renderHtml o nt t) = ok) '
+                  'for safe mode and the full oracle balancedBytes, including its thead/tbody-once-under-table clause (html_table_sections, on the '
+                  'flagged stack machine runO) and its footnote-section-once clause; html_balanced_bytes_partial (core oracle) is subsumed; with '
+                  'unsafe_ = true (raw HTML passed through) byte-level balance is checked by running the oracle on the real output, not proved'],
  'assumptions': ['plugins and URL rewriters are outside the model',
                  "that every parsed tree satisfies balShapeT is checked on every parsed tree of the run (it is C04's subject)"]}
 
@@ -28,9 +30,14 @@ TEXT = {'text': "Proof. html.rs's format_node_default is modelled completely at 
          'Token level and byte level are connected in Lean: the byte lexer provably inverts the spelling of every allowed token list (lex_spell), '
          'every start tag written is non-void and every self-closed tag void (html_void_discipline), hence for unsafe_ = false the rendered '
          'bytes pass the core of the oracle (html_balanced_bytes_partial; balancedBytes_imp_core shows the core is the oracle minus the '
-         'section-once clauses) and contain the footnote section start tag at most once (html_footnote_section_once_bytes).',
+         'section-once clauses) and contain the footnote section start tag at most once (html_footnote_section_once_bytes). The remaining '
+         'clause is now proved too: the tag events of the rendered document run against the oracle\'s flagged stack (table entries remember '
+         'whether thead/tbody were opened) succeed and leave nothing open (html_table_sections, a second mutual induction over Tree/Forest: '
+         'only a table row writes thead/tbody, every other token list acts on the flagged stack as on the name stack), so for unsafe_ = false '
+         'the rendered bytes pass the complete oracle balancedBytes (html_balanced_bytes, same hypotheses as the partial theorem, which it '
+         'subsumes); html_balanced_bytes_needs_shape shows the header-row-first part of balShapeT is needed (thead twice otherwise).',
  'note': 'Trusted: Lean kernel + standard axioms; harness/driver; recursive traversal stands for the explicit work stack; token-to-byte lexing step '
-         'is proved for safe mode, the core oracle and footnote-section-once (thead/tbody-once clause and unsafe mode: exercised only); balShapeT of parsed trees is checked per run, proved nowhere (C04).',
+         'is proved for safe mode and the complete oracle balancedBytes incl. thead/tbody-once-under-table and footnote-section-once (unsafe mode: exercised only); balShapeT of parsed trees is checked per run, proved nowhere (C04).',
  'technique': 'Lean 4 theorem by mutual structural induction over Tree/Forest with per-kind pairing lemmas + differential correspondence (byte-equal '
               'HTML) + lexer/stack oracle on real output',
  'design_ref': 'DESIGN.md section 7, C10'}
